@@ -74,7 +74,13 @@
 #	define WARN_UNUSED
 #endif
 
+#if defined (LIBSNDFILE_VERIF) && defined (LIBSNDFILE_VERIF_BUFFER_LEN)
+/* Verification hook: shrink the internal staging buffers so that bounded
+** symbolic execution can cross several staging-buffer boundaries. */
+#define	SF_BUFFER_LEN			(LIBSNDFILE_VERIF_BUFFER_LEN)
+#else
 #define	SF_BUFFER_LEN			(8192)
+#endif
 #define	SF_FILENAME_LEN			(1024)
 #define SF_SYSERR_LEN			(256)
 #define SF_MAX_STRINGS			(32)
